@@ -35,7 +35,7 @@ EXPLANATION = (
     "ext grids go through set_fixed_node_entries(mode 't') whose running mean, counter and node type are checked; "
     "circulation pumps of type t/pt write TOUTINIT = t_flow_k and pin their thermal branch row. (R10.5) the "
     "direction switch is MDOTINIT < -eps and get_from/to_nodes_corrected constant-fold to (FROM,TO)/(TO,FROM); all "
-    "thermal consumers use them. Numba twin tied by C07. Not decided: temperature bounds of a solution, convergence.")
+    "thermal consumers use them. (R10.6, shared with C07 R7.1) the numba twin of the thermal kernel computes the same residuals as the numpy kernel the law is compared with. Numba twin tied by C07. Not decided: temperature bounds of a solution, convergence.")
 ASSUMPTIONS = [phys.POSITIVITY_TEXT, "transient=False", "the law is the transcription in ppsa/spec/laws.py "
                "(pipe_component.rst, junction_component.rst, Baehr 2010)"]
 TECHNIQUE = "whole-function value numbering of the thermal derivative calculation vs transcribed law; quantity-kind inference on normal forms; symbolic differentiation; constant folding"
